@@ -413,6 +413,7 @@ def run(ctx: Ctx) -> None:
 
 
 MUTANTS = [
+    ("iteration-writes-input", "states/setup.py", "        obj_params[params_obj_type] = params_obj_name\n", "        params[params_obj_type] = params_obj_name\n        obj_params[params_obj_type] = params_obj_name\n", "7w"),
     ("intersect-typo", Q, "states = states.intersection(image_states)", "states = states.intersect(image_states)", "1"),
     ("empty-sentinel", Q, "            if states is None:\n                states = image_states", "            if not states:\n                states = image_states", "2"),
     ("union-instead", R, "images_states = images_states.intersection(image_snapshots)", "images_states = images_states.union(image_snapshots)", "2"),
